@@ -269,23 +269,6 @@ func jsWrite(sf *ast.SoyFileNode, es6 bool, msgs soymsg.Bundle) (out string, err
 	return buf.String(), err
 }
 
-// sortImports puts the ES6 import block (the lines before the header comment)
-// in sorted order: the block is written in Go map order and the model's oracle
-// is the sorted one.
-func sortImports(s string) string {
-	i := strings.Index(s, "// This file was automatically generated from ")
-	if i <= 0 {
-		return s
-	}
-	head := s[:i]
-	if !strings.HasSuffix(head, "\n\n") {
-		return s
-	}
-	lines := strings.Split(strings.TrimSuffix(head, "\n\n"), "\n")
-	sort.Strings(lines)
-	return strings.Join(lines, "\n") + "\n\n" + s[i:]
-}
-
 // jsModel returns the model's outcome class and text.
 func jsModel(e *env, sf *ast.SoyFileNode, es6 bool, tr map[uint64][]c14Part) (cls string, text string, raw []string) {
 	f := "#5"
